@@ -4,7 +4,7 @@
 (* each is judged on its own: it must be exactly the step the specification    *)
 (* takes from the logged pre-state, and the post-state must satisfy the        *)
 (* property clauses.  Mismatches are printed (one JSON line each), never fatal.*)
-EXTENDS IdAllocOps, TLC, Json, IOUtils
+EXTENDS NodeIdOps, TLC, Json, IOUtils
 
 Recs == ndJsonDeserialize(IOEnv.TRACE_FILE)
 N == Len(Recs)
@@ -54,6 +54,48 @@ ParseStep(r) ==
     ELSE IF Len(r.ids) # r.n THEN Bad("parse.count", r.n)
     ELSE Good
 
+\* --- node IDs: the IDs of the entities in the map, plus the allocator's reserved set.  An entity
+\* in the map owns its ID: it is reserved (so nobody else can be handed it), positive and distinct.
+OwnedStep(r) ==
+    IF ~DistinctSeq(r.ids) THEN Bad("owned.unique", 0)
+    ELSE IF \E k \in 1..Len(r.ids) : r.ids[k] < 1 THEN Bad("owned.positive", 0)
+    ELSE IF \E k \in 1..Len(r.ids) : r.ids[k] \notin {r.used[j] : j \in 1..Len(r.used)}
+         THEN Bad("owned.reserved", 0)
+    ELSE Good
+
+\* --- one API call of the node-ID protocol (NodeIdOps) on real VMF/Entity objects.  The step is
+\* the specification's step from the logged pre-state, up to the allocator's free choice: which
+\* unused ID is handed out when the wish is unavailable is not prescribed, nor is keeping spare IDs
+\* reserved; membership, the other entities' keys, plain-data keys outside the map, an available
+\* wish being honoured, and uniqueness / positivity / reservation of the IDs in the map are.
+NStOf(j) == [man |-> ManOf(j.man), ents |-> j.ents]
+NodeStep(r) ==
+    LET pre == NStOf(r.pre) post == NStOf(r.post) a == r.a
+        o == IF a.op = "copy" THEN a.p ELSE a.o
+        e == CASE a.op = "construct" -> NConstruct(pre, a.o, a.k)
+               [] a.op = "create" -> NCreate(pre, a.o, a.k)
+               [] a.op = "copy" -> NConstruct(pre, a.p, pre.ents[a.o].key)
+               [] a.op = "add" -> NAdd(pre, a.o)
+               [] a.op = "remove" -> NRemove(pre, a.o)
+               [] a.op = "set" -> NSet(pre, a.o, a.k)
+               [] a.op = "del" -> NDel(pre, a.o)
+               [] a.op = "destroy" -> NDestroy(pre, a.o)
+        wish == CASE a.op \in {"create", "set"} -> a.k
+                  [] a.op = "add" -> pre.ents[a.o].key
+                  [] OTHER -> NoKey
+        ek == e.ents[o].key  pk == post.ents[o].key
+    IN  IF ~NUnique(post) THEN Bad("node.unique", e.ents)
+        ELSE IF ~NPositive(post) THEN Bad("node.positive", e.ents)
+        ELSE IF ~NReserved(post) THEN Bad("node.reserved", e.man.used)
+        ELSE IF \E x \in DOMAIN post.ents : post.ents[x].w # e.ents[x].w THEN Bad("node.membership", e.ents)
+        ELSE IF \E x \in DOMAIN post.ents \ {o} : post.ents[x] # pre.ents[x] THEN Bad("node.frame", e.ents)
+        ELSE IF e.ents[o].w = "in" /\ IsNum(ek) /\ a.op \in {"create", "set", "add"}
+             THEN (IF ~IsNum(pk) THEN Bad("node.claimed", ek)
+                   ELSE IF ek = wish /\ pk # wish THEN Bad("node.wish", ek)
+                   ELSE Good)
+        ELSE IF pk # ek THEN Bad("node.key", ek)
+        ELSE Good
+
 \* --- fixup replaceNN indexes; pre/post are lists of <<folded var, index>>
 FixStep(r) ==
     LET pre == FixOf(r.pre) post == FixOf(r.post)
@@ -76,6 +118,8 @@ FixInit(r) ==
 Verdict(r) == CASE r.k = "idman" -> ManStep(r)
                 [] r.k = "life" -> LifeStep(r)
                 [] r.k = "parse" -> ParseStep(r)
+                [] r.k = "owned" -> OwnedStep(r)
+                [] r.k = "node" -> NodeStep(r)
                 [] r.k = "fix" -> FixStep(r)
                 [] r.k = "fixinit" -> FixInit(r)
 
